@@ -22,11 +22,12 @@ theorem run_append_some {n : Nat} : ∀ {a : List TLine} {s s' : St} {b : List T
     obtain ⟨m', h3, h4⟩ := run_append_some h2
     exact ⟨m', by simp only [run, h1, h3], h4⟩
 
-/-- `read` succeeded: the header was accepted and the body ran through -/
+/-- `read` succeeded: the header line was accepted, its own section gave the comment of the set, and the body (the
+lines from the first one at indentation 0 on) ran through -/
 theorem read_some {n : Nat} {t : List Nat} {m : Mappings} (h : read n t = some m) :
-    ∃ (hd : TLine) (ls : List TLine) (s : St), textLines t = hd :: ls ∧ 2 ≤ n ∧ m.ns.length = n ∧ m.doc = none ∧
-      hd.fields = [50] :: [48] :: m.ns ∧
-      run n { depth := 0, kind := .field, classes := [] } ls = some s ∧ m.classes = s.classes := by
+    ∃ (hd : TLine) (ls : List TLine) (s : St), textLines t = hd :: ls ∧ 2 ≤ n ∧ m.ns.length = n ∧
+      headerSec none ls = some (m.doc, bodyPart ls) ∧ hd.fields = [50] :: [48] :: m.ns ∧
+      run n { depth := 0, kind := .field, classes := [] } (bodyPart ls) = some s ∧ m.classes = s.classes := by
   unfold read at h
   split at h
   · simp at h
@@ -51,12 +52,17 @@ theorem read_some {n : Nat} {t : List Nat} {m : Mappings} (h : read n t = some m
                 · simp at h
                 · split at h
                   · simp at h
-                  · rename_i s hrun
-                    simp only [Option.some.injEq] at h
-                    subst h
-                    simp only [ne_eq, Decidable.not_not] at h2 h0 hlen
-                    subst h2 h0
-                    exact ⟨hd, ls, s, htl, by omega, hlen, rfl, hf, hrun, rfl⟩
+                  · rename_i doc body hsec
+                    split at h
+                    · simp at h
+                    · rename_i s hrun
+                      simp only [Option.some.injEq] at h
+                      subst h
+                      simp only [ne_eq, Decidable.not_not] at h2 h0 hlen
+                      subst h2 h0
+                      have hb := headerSec_rest ls none doc body hsec
+                      subst hb
+                      exact ⟨hd, ls, s, htl, by omega, hlen, hsec, hf, hrun, rfl⟩
         · simp at h
 
 /-! ## one entry per recognised line -/
